@@ -114,6 +114,12 @@ func c06Gen(tier string, r *rand.Rand) []Case {
 	add("error", c06In{Mode: "error", N: 4, T: 1, Lens: []int{48, 48}, Signers: []int{0, 4}})
 	add("error", c06In{Mode: "error", N: 4, T: 1, Lens: []int{48, 48}, Signers: []int{-1, 2}})
 	add("error", c06In{Mode: "error", N: 4, T: 1, Lens: []int{48, 47}, Signers: []int{0, 2}})
+	// indices that are out of range as integers but whose low byte is a valid index (the library
+	// narrows indices to a byte internally); the same list is first offered to the stateful API
+	for _, big := range []int{256, 257, 259, 512 + 1, 65536 + 2, -256, -255, -254, 1 << 40, -(1 << 40) + 1} {
+		add("error-wide-index", c06In{Mode: "error", N: 4, T: 1, Lens: []int{48, 48}, Signers: []int{big, 2}})
+		add("error-wide-index", c06In{Mode: "error", N: 4, T: 1, Lens: []int{48, 48}, Signers: []int{0, big}})
+	}
 	add("error", c06In{Mode: "error", N: 4, T: 1, Lens: []int{0, 48}, Signers: []int{0, 2}})
 	add("error", c06In{Mode: "error", N: 4, T: 1, Lens: []int{48, 48, 5}, Signers: []int{0, 2, 3}})
 	add("error", c06In{Mode: "error", N: 4, T: 1, Lens: []int{48, 48, 48}, Signers: []int{0, 2, 2}})
@@ -300,6 +306,32 @@ func c06Run(c Case) (Result, error) {
 	case "error":
 		sk, _ := crypto.GeneratePrivateKey(crypto.BLSBLS12381, rbytes(rr, 32))
 		full, _ := sk.Sign(msg, hs)
+		// the stateful API must refuse every out-of-range signer index with the invalid-input error
+		if in.N >= 2 && in.T >= 1 && in.T < in.N && in.N <= 254 {
+			if _, pkShares, gpk, err := crypto.BLSThresholdKeyGen(in.N, in.T, rbytes(rr, 32)); err == nil {
+				if insp, err := crypto.NewBLSThresholdSignatureInspector(gpk, pkShares, in.T, msg, "c06-err"); err == nil {
+					for _, idx := range in.Signers {
+						if idx >= 0 && idx < in.N {
+							continue
+						}
+						var e1, e2, e3, e4 error
+						if p, m := catch(func() {
+							_, e1 = insp.HasShare(idx)
+							_, e2 = insp.VerifyShare(idx, full)
+							_, e3 = insp.TrustedAdd(idx, full)
+							_, _, e4 = insp.VerifyAndAdd(idx, full)
+						}); p {
+							return Result{}, implViolation("stateful threshold API panics on signer index %d: %s", idx, strings.Split(m, "\n")[0])
+						}
+						for k, e := range []error{e1, e2, e3, e4} {
+							if !crypto.IsInvalidInputsError(e) {
+								return Result{}, implViolation("%s(%d) on a group of %d returned %v, documented: invalid-input error", []string{"HasShare", "VerifyShare", "TrustedAdd", "VerifyAndAdd"}[k], idx, in.N, e)
+							}
+						}
+					}
+				}
+			}
+		}
 		var shares []crypto.Signature
 		var lens []string
 		for _, l := range in.Lens {
